@@ -726,6 +726,9 @@ def c14_tables(rep, W, rule="C14"):
                                 continue
                             if n.lower() in got:
                                 bad.append("header %s appended twice" % n)
+                            if v[0] == "call" and v[1] == "alloc::string::ToString::to_string" and len(v[3]) == 1 and v[3][0][0] == "const" \
+                                    and isinstance(v[3][0][2], str):
+                                v = v[3][0]        # `"urgency=low".to_string()` is that text
                             got[n.lower()] = v
                         for hn, hp in headers.items():
                             if hn not in got:
@@ -1111,9 +1114,13 @@ def c15_nopanic(rep, W, rule="C15.NOPANIC"):
             continue
         seen.add(b.key)
         bad = []
+        gb_ = None
         for bb, t in b.calls():
             d = t["callee"].get("def", "")
             if d in PANIC_CALLEES and not G.is_log_span(t["span"]):
+                gb_ = gb_ or W.gea(b)
+                if not gb_.vals_at((bb, "T")):
+                    continue      # no path of the product reaches it (`unreachable!()` in an arm the value's construction excludes)
                 bad.append((d.split("::")[-1], b.line_of_block(bb)))
         asserts = []
         for blk in b.blocks:
